@@ -14,6 +14,7 @@ CONSTANTS
   MaxSt = 2
   MaxLd = 2
   MaxLen = 3
+  Template <- NoTemplate
   Q = {}
   Clauses <- AllClauses
   Probe = FALSE
